@@ -411,6 +411,69 @@ def gen_constants(report):
     return '\n'.join(L)
 
 
+# (module, qualified name, Lean constant): bodies pinned verbatim (docstrings dropped, text normalised
+# by ast.unparse, so comments / blank lines / line breaks do not matter)
+BODY_PINS = [
+    ('util', 'integrate', 'pinIntegrate'),
+    ('numeric', '_identity_element_index', 'pinIdentityElementIndex'),
+    ('basis', 'Basis.__array_finalize__', 'pinBasisArrayFinalize'),
+    ('basis', 'Basis.four_element_traces', 'pinFourElementTraces'),
+    ('basis', '_full_from_partial', 'pinFullFromPartial'),
+    ('basis', 'ggm_expand', 'pinGgmExpand'),
+    ('basis', 'expand', 'pinExpand'),
+    ('util', 'tensor_insert', 'pinTensorInsert'),
+    ('util', 'tensor_merge', 'pinTensorMerge'),
+    ('util', 'tensor_transpose', 'pinTensorTranspose'),
+    ('pulse_sequence', '_join_equal_segments', 'pinJoinEqualSegments'),
+    ('pulse_sequence', 'remap', 'pinRemap'),
+    ('pulse_sequence', 'extend', 'pinExtend'),
+    ('pulse_sequence', 'concatenate', 'pinConcatenate'),
+    ('pulse_sequence', 'concatenate_without_filter_function', 'pinConcatenateWithoutFF'),
+    ('pulse_sequence', 'concatenate_periodic', 'pinConcatenatePeriodic'),
+    ('pulse_sequence', '_parse_args', 'pinParseArgs'),
+    ('pulse_sequence', '_parse_Hamiltonian', 'pinParseHamiltonian'),
+    ('util', 'parse_operators', 'pinParseOperators'),
+    ('util', 'parse_spectrum', 'pinParseSpectrum'),
+    ('util', 'get_indices_from_identifiers', 'pinGetIndices'),
+    ('numeric', 'diagonalize', 'pinDiagonalize'),
+    ('numeric', 'calculate_control_matrix_from_scratch', 'pinControlMatrixFromScratch'),
+    ('numeric', 'calculate_control_matrix_from_atomic', 'pinControlMatrixFromAtomic'),
+    ('pulse_sequence', 'PulseSequence.get_filter_function_derivative', 'pinGetFFDerivative'),
+    ('gradient', 'calculate_derivative_of_control_matrix_from_scratch', 'pinGradControlMatrix'),
+    ('gradient', 'infidelity_derivative', 'pinInfidelityDerivative'),
+    ('numeric', 'error_transfer_matrix', 'pinErrorTransferMatrix'),
+    ('numeric', 'calculate_frequency_shifts', 'pinFrequencyShifts'),
+    ('pulse_sequence', 'PulseSequence.propagator_at_arb_t', 'pinPropagatorAtArbT'),
+    ('analytic', 'FID', 'pinFID'), ('analytic', 'SE', 'pinSE'), ('analytic', 'PDD', 'pinPDD'),
+    ('analytic', 'CPMG', 'pinCPMG'), ('analytic', 'CDD', 'pinCDD'), ('analytic', 'UDD', 'pinUDD'),
+]
+
+
+def gen_pins(report):
+    """statement-text pins of helper functions whose bodies are modelled by hand (own file: a change
+    of a pinned function must not force a rebuild of everything that imports Gen.Constants)"""
+    L = ['/- GENERATED by tools/ffv/translate.py from /repo — do not edit. -/\n'
+         'namespace FFVerif.Gen\n']
+
+    def body_text(fn):
+        return ' ; '.join(src(s) for s in fn.body
+                          if not (isinstance(s, ast.Expr) and isinstance(s.value, ast.Constant)
+                                  and isinstance(s.value.value, str)))
+    mods = {}
+    for (mod, qn, lean) in BODY_PINS:
+        try:
+            if mod not in mods:
+                mods[mod] = load(mod)[1]
+            L.append(f'/-- normalised statements of {mod}.{qn} -/\ndef {lean} : String := '
+                     f'{lean_str(body_text(mods[mod][qn]))}\n')
+            report['const:pin.' + lean] = {'ok': True, 'detail': ''}
+        except Exception as e:  # noqa
+            L.append(f'def {lean} : String := ""\n')
+            report['const:pin.' + lean] = {'ok': False, 'detail': repr(e)}
+    L.append('end FFVerif.Gen\n')
+    return '\n'.join(L)
+
+
 # ------------------------------------------------------------------------------------------------
 # cache sets
 # ------------------------------------------------------------------------------------------------
@@ -580,7 +643,8 @@ def run():
     os.makedirs(gen, exist_ok=True)
     changed = []
     for fn, f in (('Einsum.lean', gen_einsum), ('Constants.lean', gen_constants),
-                  ('CacheSets.lean', gen_cachesets), ('Options.lean', gen_options)):
+                  ('CacheSets.lean', gen_cachesets), ('Options.lean', gen_options),
+                  ('Pins.lean', gen_pins)):
         try:
             text = f(report)
         except Exception as e:  # noqa
